@@ -296,6 +296,107 @@ def run(ctx, report):
     from .c02 import fixed_reg_mode_rule
     fixed_reg_mode_rule(ctx, R5)
 
+    R6 = report.rule('C19.D6', 'every assembler entry point types the immediates with the operand size before candidates are selected', floor=2)
+    imm_typing_rule(ctx, R6)
+
+    R7 = report.rule('C19.D7', 'the rendering memo `txt` an operand carries after a sum or an AT&T register never decides a candidate', floor=2)
+    txt_memo_rule(ctx, R7)
+
+
+def imm_typing_rule(ctx, R):
+    """check_imm_size offers the sign-extended imm8 form of a 16-bit operand only to an immediate that carries its width (imm.size == 16, which
+    arg_set_numpy_imm gives it): an entry point that reaches asm_candidates without that step assembles `add ax, 0xffff` and `add ax, -1` differently
+    (and cannot reproduce the canonical 66 83 /r ib).  Rule: in every method of x86_mn that calls asm_candidates, a call of arg_set_numpy_imm on the
+    parsed operands precedes it in source order, outside any branch."""
+    arch = ctx.mod('ia32_arch')
+    cis = arch.func('check_imm_size')
+    depends = any(isinstance(n, ast.Call) and u(n.func) == 'getattr' and len(n.args) >= 2 and isinstance(n.args[1], ast.Constant) and n.args[1].value == 'size'
+                  for n in ast.walk(cis))
+    meths = arch.methods('x86_mn')
+    if 'arg_set_numpy_imm' not in meths:
+        raise AnalysisError('x86_mn.arg_set_numpy_imm not found')
+    n_entry = 0
+    for name, fn in sorted(meths.items()):
+        calls = [(i, st) for i, st in enumerate(fn.body) for c in ast.walk(st) if isinstance(c, ast.Call) and isinstance(c.func, ast.Attribute) and c.func.attr == 'asm_candidates']
+        if not calls:
+            continue
+        n_entry += 1
+        first = calls[0][0]
+        typed = [i for i, st in enumerate(fn.body[:first]) if isinstance(st, ast.Expr) and isinstance(st.value, ast.Call) and isinstance(st.value.func, ast.Attribute)
+                 and st.value.func.attr == 'arg_set_numpy_imm']
+        inst = 'x86_mn.%s -> asm_candidates' % name
+        if typed or not depends:
+            R.ok(inst, sample='%s: arg_set_numpy_imm precedes asm_candidates' % name)
+        else:
+            R.violation(inst, 'untyped-immediates:%s' % name, '%s passes the parsed operands to asm_candidates without arg_set_numpy_imm: check_imm_size gives the sign-extended imm8 '
+                        'form of a 16-bit operand only to immediates that carry their width, so a value spelled 0xffff and the same value spelled -1 get different candidates'
+                        % name, where(arch, fn), witness="x86_mn.asm('add ax, 0xffff') lacks 66 83 c0 ff, which x86_mn.asm('add ax, -1') and the AT&T entry point return")
+    if n_entry < 2:
+        raise AnalysisError('fewer than two entry points call asm_candidates (%d)' % n_entry)
+
+
+def txt_memo_rule(ctx, R):
+    """dict_add (Intel `[foo+4]`, `[4+4]`) and the AT&T register productions leave a `txt` entry in the operand; `foo[4]` / dict_sub do not.  A key
+    whitelist over an operand that does not list 'txt', or a comparison of the whole operand with a pattern while it still carries the memo, makes the
+    candidate set depend on the spelling.  Sites: the assembler's methods and the module-level predicates they call."""
+    arch = ctx.mod('ia32_arch')
+    meths = arch.methods('x86_mn')
+    roots = [meths[n] for n in ('asm_candidates', 'normalize_args') if n in meths]
+    if len(roots) < 2:
+        raise AnalysisError('asm_candidates / normalize_args not found')
+    called = set()
+    for f in roots:
+        for n in ast.walk(f):
+            if isinstance(n, ast.Call) and isinstance(n.func, ast.Name) and n.func.id in arch.funcs:
+                called.add(n.func.id)
+    fns = roots + [arch.funcs[n] for n in sorted(called)]
+    produces = any("['txt']" in u(n) for n in ast.walk(ctx.mod('parse_ad').func('dict_add')) if isinstance(n, ast.Assign))
+    if not produces:
+        R.note('dict_add no longer leaves a txt memo')
+    for f in fns:
+        for n in ast.walk(f):
+            # (a) key whitelists
+            if isinstance(n, ast.For) and isinstance(n.target, ast.Name):
+                for st in n.body:
+                    if isinstance(st, ast.If) and isinstance(st.test, ast.UnaryOp) and isinstance(st.test.op, ast.Not) and isinstance(st.test.operand, ast.Compare) \
+                            and isinstance(st.test.operand.ops[0], ast.In) and u(st.test.operand.left) == n.target.id and isinstance(st.test.operand.comparators[0], ast.List):
+                        elts = st.test.operand.comparators[0].elts
+                        if not any(u(e).startswith('x86_afs.') for e in elts):
+                            continue
+                        inst = '%s: key whitelist over %s' % (f.name, u(n.iter))
+                        if any(isinstance(e, ast.Constant) and e.value == 'txt' for e in elts):
+                            R.ok(inst, sample='%s: the whitelist [%s] lists txt' % (f.name, ', '.join(u(e) for e in elts)))
+                        else:
+                            R.violation(inst, 'txt-memo:whitelist:%s:%s' % (f.name, u(n.iter)), '%s accepts the operand %s only when its keys are among [%s]: an operand written as a sum '
+                                        '([foo+4], [4+4]) carries the memo `txt` and is refused, the same operand written foo[4] / [8] is accepted'
+                                        % (f.name, u(n.iter), ', '.join(u(e) for e in elts)), where(arch, st), witness="asm('mov eax, DWORD PTR [foo+4]') lacks a1 04 00 00 00, which 'DWORD PTR foo[4]' gives")
+            # (b) whole-operand comparisons
+            if isinstance(n, ast.Compare) and len(n.ops) == 1 and isinstance(n.ops[0], (ast.Eq, ast.NotEq)):
+                sides = [n.left, n.comparators[0]]
+                ops_ = [x for x in sides if isinstance(x, ast.Subscript) and isinstance(x.value, ast.Name) and x.value.id in ('args_sample', 'args')
+                        and not isinstance(x.slice, ast.Slice)]
+                other = [x for x in sides if x not in ops_]
+                if len(ops_) != 1 or not other or not (isinstance(other[0], ast.Dict) or (isinstance(other[0], ast.Name) and other[0].id.startswith(('dib', 'r_')))):
+                    continue
+                opx = u(ops_[0])
+                blk = parent(n)
+                while blk is not None and not isinstance(blk, ast.stmt):
+                    blk = parent(blk)
+                holder = parent(blk)
+                popped = False
+                for fld in ('body', 'orelse'):
+                    seq = getattr(holder, fld, None)
+                    if isinstance(seq, list) and blk in seq:
+                        for st in seq[:seq.index(blk)]:
+                            if ("%s.pop('txt'" % opx) in u(st):
+                                popped = True
+                inst = '%s: %s compared with %s' % (f.name, opx, u(other[0]))
+                if popped:
+                    R.ok(inst, sample='%s: the memo is dropped before %s' % (f.name, u(n)))
+                else:
+                    R.violation(inst, 'txt-memo:compare:%s:%s' % (f.name, opx), '%s compares the whole operand %s with a pattern while it may still carry the memo `txt` (AT&T registers do)'
+                                % (f.name, opx), where(arch, n))
+
 
 def disp_outside_rule(ctx, R):
     """`N[expr]`, `-N[expr]`, `N+sym[expr]`, `-N+sym[expr]` (gcc -masm=intel spellings): the grammar actions are evaluated on a synthetic
@@ -393,4 +494,7 @@ MUTANTS = [
      'if t.value.startswith("0x") or t.value.startswith("0X"):', 'if t.value.startswith("0x"):', 'C19.D2'),
     ('intel-expr5-nowrap', 'miasmx/core/parse_ad.py',
      "    t[0] = {x86_afs.imm:int(int32(uint32(int(t[1]))))}", "    t[0] = {x86_afs.imm:int(t[1])}", 'C19.D2'),
+    ('intel-untyped-imm', 'miasmx/arch/ia32_arch.py', "        x86_mn.arg_set_numpy_imm(args)\n        self.normalize_args(name, args, prefix)", "        self.normalize_args(name, args, prefix)", 'C19.D6'),
+    ('mim-refuses-txt', 'miasmx/arch/ia32_arch.py', "                        if not k in [x86_afs.imm, x86_afs.ad, x86_afs.size, 'txt']:", "                        if not k in [x86_afs.imm, x86_afs.ad, x86_afs.size]:", 'C19.D7'),
+    ('dx-compare-keeps-txt', 'miasmx/arch/ia32_arch.py', "                    args_sample[index_im].pop('txt', None)\n", "", 'C19.D7'),
 ]
